@@ -342,4 +342,7 @@ def run(ctx):
     check_byte_queue(ctx)
     # wait predicate loop / append-notify (shared with C09.W1) and thread wake-up discipline
     check_bytequeue_wait(ctx, "C04.W1")
-    check_dispatcher(ctx, "C04.W1", wakeups=True, consumers=True, reconnect=False)
+    from . import c05
+
+    c05.shared(ctx, "C04.W1")  # a lost link leaves no partial frame in the buffer (it would be merged into the next connection's stream)
+    check_dispatcher(ctx, "C04.W1", wakeups=True, consumers=True, reconnect=True)
